@@ -438,6 +438,7 @@ func propC04() *Prop {
 				j.ValidatePaths = 0
 				js = append(js, j)
 			}
+			js = append(js, lbJob("C04a/removed-and-re-added-under-the-same-name[the failure tally does not carry over]", "VerifC04ReAdd"))
 			js = append(js, threadJob(lbJob("C04c/expiry-check-racing-a-fresh-ejection", "VerifC04Race"), int(tierPick(tier, 2, 3))))
 			js = append(js, threadJob(lbJob("C04d/concurrent-failed-responses-at-the-threshold", "VerifC04ConcurrentFailures"), int(tierPick(tier, 2, 3))))
 			for _, j := range js {
